@@ -54,6 +54,7 @@ def Src.lift : Src k R → Src k (DualNumber R)
 def PGate.lift : PGate n R → PGate n (DualNumber R)
   | .unitary src t => .unitary src.lift t
   | .control src c r tn => .control src.lift c r tn
+  | .custom src d => .custom src.lift d
 
 theorem src_get_fst (Θ δΘ : Params R) (src : Src k R) :
     (fun a b => ((src.lift).get (dualParams Θ δΘ) a b).fst) = src.get Θ := by
@@ -90,6 +91,28 @@ theorem gate_dual (Θ δΘ : Params R) (g : PGate n R) (ψ : Vec n (DualNumber R
       simp only [TrivSqZeroExt.snd_inl, applyGate_zero, ite_self]
     | param s =>
       simp only [Src.lift, Src.get, dualParams, snd_dualOf, PGate.dapply]
+  | custom src d =>
+    have hfst : (scalarOf (src.lift.get (dualParams Θ δΘ))).fst = scalarOf (src.get Θ) :=
+      congrFun (congrFun (src_get_fst Θ δΘ src) _) _
+    have happ : (PGate.custom src d).lift.apply (dualParams Θ δΘ) ψ x
+        = customApply (scalarOf (src.lift.get (dualParams Θ δΘ))) d ψ x := rfl
+    rw [happ]
+    cases src with
+    | fixed U =>
+      have hsnd : (scalarOf ((Src.fixed U).lift.get (dualParams Θ δΘ))).snd = 0 := by
+        simp [Src.lift, Src.get, scalarOf]
+      simp only [customApply, PGate.apply, PGate.dapply, add_zero]
+      split
+      · simp only [TrivSqZeroExt.fst_mul, snd_mul', hfst, hsnd, mul_zero, zero_add, and_self]
+      · exact ⟨rfl, rfl⟩
+    | param s =>
+      have hsnd : (scalarOf ((Src.param s : Src 0 R).lift.get (dualParams Θ δΘ))).snd = scalarOf (δΘ 0 s) := by
+        simp [Src.lift, Src.get, scalarOf, dualParams]
+      simp only [customApply, PGate.apply, PGate.dapply]
+      split
+      · simp only [TrivSqZeroExt.fst_mul, snd_mul', hfst, hsnd, true_and]
+        exact add_comm _ _
+      · simp
 
 /-- **`dforward` is the ε-coefficient of the forward pass at `Θ + ε·δΘ`, `ψ + ε·δψ`**, and the ε⁰-coefficient is the forward pass -/
 theorem forward_dual (Θ δΘ : Params R) (gates : List (PGate n R)) (ψ : Vec n (DualNumber R)) (x : Bits n) :
